@@ -421,7 +421,8 @@ func (n *ForNode) renderForLoop(w io.Writer, ctx *RenderContext, seq interface{}
 	case reflect.Map:
 		length = val.Len()
 	case reflect.String:
-		length = val.Len()
+		// A string is iterated character by character
+		length = len([]rune(val.String()))
 	default:
 		// For other types, try to convert to an interface slice
 		// to support custom iterables
@@ -531,7 +532,11 @@ func (n *ForNode) renderForLoop(w io.Writer, ctx *RenderContext, seq interface{}
 		}
 
 	case reflect.String:
-		for i, char := range val.String() {
+		// Position in characters (the range index would be a byte offset)
+		i := -1
+		for _, char := range val.String() {
+			i++
+
 			// Set the loop variables
 			loopVars["loop"].(map[string]interface{})["index"] = i + 1
 			loopVars["loop"].(map[string]interface{})["index0"] = i
